@@ -212,7 +212,7 @@ fn c31(args: &Args) {
     let mut ev = Evidence::new(
         args,
         "exploration",
-        "bounded-exhaustive DFS (depth 4 quick / 5 thorough) over {append 1-2 consecutive entries at index i<=last+1 incl. at or below the snapshot index (terms non-decreasing), delete_entries_from(i), create_snapshot(i,t)} with indices 1..=4 (5) and terms 1..=2 (3), plus random longer sequences; every read view compared with a reference log after every step. Non-trivial = sequence contains an append at an existing index or a snapshot below the last index; distinct = distinct op sequences.",
+        "bounded-exhaustive DFS (depth 4 quick / 5 thorough) over {append 1-2 consecutive entries at index i<=last+1 incl. at or below the snapshot index (terms non-decreasing), delete_entries_from(i), create_snapshot(i,t)} with indices 1..=4 (5) and terms 1..=2, plus random longer sequences (indices to 8, terms to 4, length to 12); every read view compared with a reference log after every step. Non-trivial = sequence contains an append at an existing index or a snapshot below the last index; distinct = distinct op sequences.",
     );
     ev.assume("caller preconditions: appends are contiguous (index <= last+1; at or below the snapshot index is allowed), terms never decrease along the log, snapshots move forward");
     let kf = Known::load(args);
@@ -256,7 +256,8 @@ fn c31(args: &Args) {
 
     // bounded-exhaustive DFS
     let depth = args.tier.pick(4usize, 5usize);
-    let alphabet = c31_alphabet(args.tier.pick(4, 5), args.tier.pick(2, 3));
+    let max_term: u64 = std::env::var("VERIF_C31_TERMS").ok().and_then(|s| s.parse().ok()).unwrap_or(2);
+    let alphabet = c31_alphabet(args.tier.pick(4, 5), max_term);
     let mut stack: Vec<LogOp> = Vec::new();
     let mut failure: Option<(Vec<LogOp>, String)> = None;
     fn dfs(
@@ -329,7 +330,8 @@ fn c31(args: &Args) {
                 let snap = m.snapshot.map(|s| s.0).unwrap_or(0);
                 let op = match kind {
                     0 => {
-                        let lo = snap + 1;
+                        // one append in four may start at or below the snapshot index
+                        let lo = if *a % 4 == 0 { 1 } else { snap + 1 };
                         let hi = last + 1;
                         if lo > hi {
                             continue;
